@@ -3,6 +3,7 @@ C17 — property theorems about the handshake model.  `sha1`, `bracketOk` (CPyth
 host) and the application's `select` are arbitrary functions: every statement holds for all of them.
 -/
 import TornadoModel.C17.Spec
+import TornadoModel.C17.B64
 namespace TornadoModel.C17
 open Spec
 
@@ -291,8 +292,7 @@ theorem accept_value_length (sha1 : Bytes → Bytes) (key : Str) (h : (sha1 (utf
     (acceptValue sha1 key).length = 28 := by
   simp [acceptValue, b64enc_length, h]
 
-/-- stretch (not proved): decoding the encoding gives the bytes back; tie: `b64` stream of the correspondence -/
-def b64_roundtrip_goal : Prop := ∀ (bs : Bytes), (∀ b ∈ bs, b < 256) → b64dec (b64enc bs) = some bs
+/- `b64_roundtrip` (decode ∘ encode = id) and `b64enc_injective` are proved in B64.lean. -/
 
 example : b64dec (b64enc [0, 255, 16, 77]) = some [0, 255, 16, 77] := by decide
 
